@@ -233,7 +233,10 @@ func TestVerifFallbackCheckpointLoad(t *testing.T) {
 				if r.Intn(5) == 0 {
 					uuid = seq
 				}
-				md.docs[vb] = &models.CheckpointDocument{BucketUUID: "b", Checkpoint: &models.CheckpointDocumentCheckpoint{VbUUID: uuid, SeqNo: seq, Snapshot: &models.CheckpointDocumentSnapshot{StartSeqNo: start, EndSeqNo: end}}}
+				// the document's bucket uuid is whatever its writer recorded (empty for older or custom writers,
+				// another value after the bucket was re-created): the positions are resumed as persisted all the same
+				docBucket := []string{"b", "", "other-incarnation", "verif-replay-bucket"}[r.Intn(4)]
+				md.docs[vb] = &models.CheckpointDocument{BucketUUID: docBucket, Checkpoint: &models.CheckpointDocumentCheckpoint{VbUUID: uuid, SeqNo: seq, Snapshot: &models.CheckpointDocumentSnapshot{StartSeqNo: start, EndSeqNo: end}}}
 			}
 		}
 		var offs *wrapper.ConcurrentSwissMap[uint16, *models.Offset]
